@@ -339,3 +339,69 @@ func init() {
 		t.recv("any is still a member of g2", any, 20)
 	}
 }
+
+// limitDescriptors makes further descriptor allocations fail soon; restore undoes it.
+func (t *tr) limitDescriptors() (restore func()) {
+	if t.a.sim {
+		old := t.a.w.K.FdLimit
+		t.a.w.K.FdLimit = 48
+		return func() { t.a.w.K.FdLimit = old }
+	}
+	var rl syscall.Rlimit
+	syscall.Getrlimit(syscall.RLIMIT_NOFILE, &rl)
+	old := rl
+	rl.Cur = 96
+	syscall.Setrlimit(syscall.RLIMIT_NOFILE, &rl)
+	return func() { syscall.Setrlimit(syscall.RLIMIT_NOFILE, &old) }
+}
+
+func init() {
+	scripts["emfile/at-the-descriptor-limit"] = func(t *tr) {
+		a := t.a
+		ln := t.tcpListener()
+		sa, _ := a.Getsockname(ln)
+		cl, _ := a.Socket(syscall.AF_INET, syscall.SOCK_STREAM|syscall.SOCK_NONBLOCK, 0)
+		t.own(cl)
+		a.Connect(cl, sa4(lo, portOf(sa)))
+		a.settle()
+		path := t.file([]byte("x"))
+		t.spareEp, _ = a.EpollCreate1(0)
+		t.own(t.spareEp)
+		restore := t.limitDescriptors()
+		defer restore()
+		var fill []int
+		for i := 0; i < 200; i++ {
+			r1, _, e := a.Syscall(syscall.SYS_EVENTFD2, 0, uintptr(syscall.O_NONBLOCK), 0)
+			if e != 0 {
+				t.logf("eventfd at the limit: %s", errnoName(e))
+				break
+			}
+			fill = append(fill, t.own(int(r1)))
+		}
+		t.logf("filled some: %v", len(fill) > 3)
+		_, err := a.Socket(syscall.AF_INET, syscall.SOCK_STREAM, 0)
+		t.logf("socket: %s", es(err))
+		p := make([]int, 2)
+		t.logf("pipe2: %s", es(a.Pipe2(p, 0)))
+		_, err = a.EpollCreate1(0)
+		t.logf("epoll_create1: %s", es(err))
+		_, err = a.TimerfdCreate(unix.CLOCK_MONOTONIC, 0)
+		t.logf("timerfd_create: %s", es(err))
+		_, err = a.Open(path, syscall.O_RDONLY, 0)
+		t.logf("open: %s", es(err))
+		_, _, err = a.Accept4(ln, syscall.SOCK_NONBLOCK)
+		t.logf("accept4 with a connection queued: %s", es(err))
+		t.logf("listener still readable: IN->%s", t.maskNoFd(ln))
+		// one slot free: pipe2 needs two and must not leak the one it got
+		a.Close(fill[len(fill)-1])
+		t.logf("one free, pipe2: %s", es(a.Pipe2(p, 0)))
+		s, err := a.Socket(syscall.AF_INET, syscall.SOCK_STREAM, 0)
+		t.logf("one free, socket: %s", es(err))
+		a.Close(s)
+		sv, _, err := a.Accept4(ln, syscall.SOCK_NONBLOCK)
+		t.logf("one free, accept4: %s", es(err))
+		t.own(sv)
+		_, _, err = a.Accept4(ln, syscall.SOCK_NONBLOCK)
+		t.logf("queue now empty: %s", es(err))
+	}
+}
